@@ -90,8 +90,12 @@ func (g *c20Gen) ops(t *rapid.T) []Op {
 	default:
 		// query
 		op := Op{K: "meta", S: s, URI: "wamp.subscription.get_events"}
-		owner := uni(t, g.nsess, "owner")
-		op.Args = []V{VRef(fmt.Sprintf("sub:%d:%d", owner, uni(t, 3, "n")))}
+		if pct(t, 85, "knownsub") {
+			// session 0 subscribed to every history topic first, in order
+			op.Args = []V{VRef(fmt.Sprintf("sub:0:%d", uni(t, len(g.hist), "hn")))}
+		} else {
+			op.Args = []V{VRef(fmt.Sprintf("sub:%d:%d", uni(t, g.nsess, "owner"), uni(t, 3, "n")))}
+		}
 		if pct(t, 5, "bogussub") {
 			op.Args = []V{VRef("bogus:2")}
 		}
@@ -130,10 +134,13 @@ func (g *c20Gen) ops(t *rapid.T) []Op {
 			r := VRef(fmt.Sprintf("pub:%d", n))
 			return r
 		}
-		for _, k := range []string{"from_publication", "after_publication", "before_publication", "until_publication"} {
-			if pct(t, 10, k) {
-				op.Kw = append(op.Kw, KV{k, pubRef()})
-			}
+		// at most one lower and one upper publication bound (two on one side
+		// are outside the statement; counted when redirected)
+		if pct(t, 18, "lowerpub") {
+			op.Kw = append(op.Kw, KV{pick(t, []string{"from_publication", "after_publication"}, "lk"), pubRef()})
+		}
+		if pct(t, 18, "upperpub") {
+			op.Kw = append(op.Kw, KV{pick(t, []string{"before_publication", "until_publication"}, "uk"), pubRef()})
 		}
 		if pct(t, 10, "topicf") {
 			op.Kw = append(op.Kw, KV{"topic", VStr(g.histTopic(t))})
